@@ -1,4 +1,8 @@
-(* Proofs about Model.Tokenize *)
+(* Proofs about Model.Tokenize (tokenize.py): the state invariant of _tokenize, the shape of the tokens it returns, and
+   totality: on a text without the two SMARTS-only characters ';' and '!' every failure of _tokenize / _atom_parse /
+   smiles_tokenize is a ValueError-class exception (IncorrectSmiles, IncorrectSmarts, ValueError) and a non-empty text
+   never gives an empty token list.  (With ';' or '!' the CURRENT code can raise IndexError / TypeError / KeyError:
+   see ReaderProofs.reader_total_refuted.) *)
 From Coq Require Import ZArith List String Ascii Bool Lia.
 From Model Require Import PyBase Tokenize.
 From Gen Require Import TokenTables.
@@ -11,3 +15,137 @@ Lemma regex_sources_pinned :
   cx_fragments_src = "f:(?:[0-9]+(?:\.[0-9]+)+)(?:,(?:[0-9]+(?:\.[0-9]+)+))*"%string /\
   cx_radicals_src = "\^[1-7]:[0-9]+(?:,[0-9]+)*"%string.
 Proof. repeat split; reflexivity. Qed.
+
+(* ------------------------------------------------------------------------------------------------ vocabulary *)
+(* the exceptions that are (subclasses of) ValueError *)
+Definition vee (e : pyexn) : bool :=
+  match e with ValueError | IncorrectSmiles | IncorrectSmarts => true | _ => false end.
+(* a result that is a value or a ValueError-class exception *)
+Definition total {A} (r : pyres A) : Prop := match r with Ok _ => True | Err e => vee e = true end.
+
+(* characters other than the SMARTS-only ';' and '!' *)
+Definition clean_c (c : ascii) : bool := negb (Ascii.eqb c ";") && negb (Ascii.eqb c "!").
+Definition clean_l (l : list ascii) : bool := forallb clean_c l.
+Definition clean (s : string) : bool := clean_l (list_ascii_of_string s).
+
+(* shape of the tokens _tokenize returns *)
+Definition rawwfb (t : token) : bool :=
+  match snd t with
+  | PStr _ => zmem (fst t) [0; 8; 5]
+  | PInt _ => zmem (fst t) [1; 6]
+  | PBool _ => fst t =? 9
+  | PNone => zmem (fst t) [2; 3; 4]
+  | PZs _ => fst t =? 10
+  | _ => false
+  end.
+(* shape of the tokens smiles_tokenize returns *)
+Definition swfb (t : token) : bool :=
+  match snd t with
+  | PAtom _ => zmem (fst t) [0; 8]
+  | PInt _ => zmem (fst t) [1; 6]
+  | PBool _ => fst t =? 9
+  | PNone => zmem (fst t) [2; 3; 4]
+  | _ => false
+  end.
+Definition W (l : list token) : Prop := forallb rawwfb l = true.
+
+Lemma py_int_err l e : py_int l = Err e -> e = ValueError.
+Proof.
+  unfold py_int. destruct l; [intros H; inversion H; reflexivity|].
+  destruct (_ && _); intros H; inversion H; reflexivity.
+Qed.
+
+(* ------------------------------------------------------------------------------------------------ table facts *)
+Lemma chr_in_cases c s : chr_in c s = true -> In c (list_ascii_of_string s).
+Proof.
+  unfold chr_in. rewrite existsb_exists. intros [x [Hx E]]. apply Ascii.eqb_eq in E. subst. exact Hx.
+Qed.
+
+(* every bond character of _tokenize has an entry in replace_dict *)
+Lemma bond_chars_replace c : chr_in c bond_chars = true -> exists o, sget replace_dict (str1 c) = Some o.
+Proof.
+  intros H. apply chr_in_cases in H. cbn in H.
+  repeat (destruct H as [<- | H]; [eexists; vm_compute; reflexivity|]). contradiction.
+Qed.
+
+Lemma cb_chars_spec c : chr_in c cb_chars = true -> c = "C"%char \/ c = "B"%char.
+Proof.
+  intros H. apply chr_in_cases in H. cbn in H.
+  repeat (destruct H as [<- | H]; [first [left; reflexivity | right; reflexivity]|]). contradiction.
+Qed.
+
+(* ------------------------------------------------------------------------------------------------ the invariant *)
+(* the (token_type, token) pairs that occur, with the token list (reversed) *)
+Inductive TI : tstate -> Prop :=
+| TI_none toks : W toks -> TI (mkT None PdNone toks)
+| TI_bond o toks : W toks -> TI (mkT (Some 1) PdNone ((1, PInt o) :: toks))
+| TI_plain k toks : In k [0; 2; 3; 4; 6; 8; 9] -> W toks -> TI (mkT (Some k) PdNone toks)
+| TI_cb s toks : s = "C"%string \/ s = "B"%string -> W toks -> TI (mkT (Some 0) (PdStr s) toks)
+| TI_br l toks : W toks -> TI (mkT (Some 5) (PdChars l) toks)
+| TI_pc0 toks : W toks -> TI (mkT (Some 7) (PdChars []) toks)
+| TI_pc1 d toks : W toks -> TI (mkT (Some 7) (PdChars [d]) toks)
+| TI_or l toks : l <> [] -> W toks -> TI (mkT (Some 10) (PdOrders l) toks).
+
+(* "the loop has consumed something that will show in the result (or make the end fail)" *)
+Definition neb (st : tstate) : bool :=
+  tt_is st 5 || tt_is st 7 || truthy (t_pend st) || match t_toks st with [] => false | _ => true end.
+
+Definition Good (r : pyres tstate) : Prop :=
+  match r with Ok st' => TI st' /\ neb st' = true | Err e => vee e = true end.
+
+Ltac wsolve :=
+  unfold W in *; cbn;
+  repeat match goal with H : forallb rawwfb _ = true |- _ => rewrite H end; reflexivity.
+Ltac insolve := cbn; repeat (first [left; reflexivity | right]).
+Ltac tisolve :=
+  first [ apply TI_none; wsolve
+        | apply TI_bond; wsolve
+        | apply TI_plain; [insolve | wsolve]
+        | apply TI_cb; [first [left; reflexivity | right; reflexivity] | wsolve]
+        | apply TI_br; wsolve | apply TI_pc0; wsolve | apply TI_pc1; wsolve
+        | apply TI_or; [first [discriminate | intros HH; apply app_eq_nil in HH; destruct HH; discriminate] | wsolve] ].
+Ltac leaf :=
+  lazymatch goal with
+  | |- Good (Ok _) => split; [tisolve | cbn; reflexivity]
+  | |- Good (Err _) => reflexivity
+  end.
+Ltac go :=
+  repeat lazymatch goal with
+  | |- Good (if true then ?x else _) => change (Good x)
+  | |- Good (if false then _ else ?y) => change (Good y)
+  | |- Good (if ?b then _ else _) => let E := fresh "E" in destruct b eqn:E
+  | |- Good (match py_int ?l with Ok _ => _ | Err _ => _ end) =>
+      let E := fresh "E" in destruct (py_int l) eqn:E; [| apply py_int_err in E; subst]
+  | |- Good (match sget replace_dict (str1 ?c) with Some _ => _ | None => _ end) =>
+      lazymatch goal with
+      | H : chr_in c bond_chars = true |- _ =>
+          let o := fresh "o" in let Ho := fresh "Ho" in destruct (bond_chars_replace c H) as [o Ho]; rewrite Ho
+      end
+  end.
+
+Lemma clean_c_spec c : clean_c c = true -> Ascii.eqb c ";" = false /\ Ascii.eqb c "!" = false.
+Proof.
+  unfold clean_c. intros H. apply andb_prop in H. destruct H as [H1 H2].
+  apply negb_true_iff in H1. apply negb_true_iff in H2. split; assumption.
+Qed.
+
+Lemma tok_step_good st c : clean_c c = true -> TI st -> Good (tok_step st c).
+Proof.
+  intros Hc HTI. apply clean_c_spec in Hc. destruct Hc as [Hs Hb].
+  destruct HTI as [toks HW | o toks HW | k toks Hk HW | s toks Hsx HW | l toks HW | toks HW | d toks HW | l toks Hl HW].
+  - unfold tok_step, ISm, ISa; cbn -[is_numeric chr_in Ascii.eqb py_int sget]; rewrite ?Hs, ?Hb; go; try leaf.
+    all: try (match goal with H : chr_in _ cb_chars = true |- _ => apply cb_chars_spec in H; destruct H; subst; leaf end).
+  - unfold tok_step, ISm, ISa; cbn -[is_numeric chr_in Ascii.eqb py_int sget]; rewrite ?Hs, ?Hb; go; try leaf.
+    all: try (match goal with H : chr_in _ cb_chars = true |- _ => apply cb_chars_spec in H; destruct H; subst; leaf end).
+  - cbn in Hk. repeat (destruct Hk as [<- | Hk]); try contradiction;
+      unfold tok_step, ISm, ISa; cbn -[is_numeric chr_in Ascii.eqb py_int sget]; rewrite ?Hs, ?Hb; go; try leaf;
+      try (match goal with H : chr_in _ cb_chars = true |- _ => apply cb_chars_spec in H; destruct H; subst; leaf end).
+  - destruct Hsx; subst s;
+      unfold tok_step, ISm, ISa; cbn -[is_numeric chr_in Ascii.eqb py_int sget]; rewrite ?Hs, ?Hb; go; try leaf;
+      try (match goal with H : chr_in _ cb_chars = true |- _ => apply cb_chars_spec in H; destruct H; subst; leaf end).
+  - unfold tok_step, ISm, ISa; cbn -[is_numeric chr_in Ascii.eqb py_int sget]; rewrite ?Hs, ?Hb; go; try leaf.
+    all: destruct l; go; try leaf.
+  - unfold tok_step, ISm, ISa; cbn -[is_numeric chr_in Ascii.eqb py_int sget]; rewrite ?Hs, ?Hb; go; try leaf.
+  - unfold tok_step, ISm, ISa; cbn -[is_numeric chr_in Ascii.eqb py_int sget]; rewrite ?Hs, ?Hb; go; try leaf.
+  - unfold tok_step, ISm, ISa; cbn -[is_numeric chr_in Ascii.eqb py_int sget]; rewrite ?Hs, ?Hb; go; try leaf.
+Qed.
